@@ -21,21 +21,21 @@ from harness import core, gen
 
 HEADER = """From Coq Require Import ZArith.
 From mathcomp Require Import all_ssreflect all_algebra ssrZ rat.
-From NP Require Import Base Poly Harness Order Show ShowP GenShow.
+From NP Require Import Base Poly Harness Order Show ShowP@GEN@.
 Delimit Scope Z_scope with CZ.
 Local Notation tP := (@TPlus _). Local Notation tM := (@TMinus _).
 Local Notation tX := (@TMul _). Local Notation tW := (@TPow _).
 Local Notation tN := (@TNum _). Local Notation tV := (@TName _). Local Notation tE := (@TNat _).
-Local Notation O := DOpts.
+Local Notation dO := DOpts.
 Definition QO : realDomainType := [realDomainType of rat].
 Definition q (a : Z) (b : nat) : rat := (int_of_Z a)%:Q / (Posz b)%:Q.
-Definition g (a b : Z) : GI := (a, b).
-Definition PR := gen_plus_rule.
+Definition g (a b : Z) : GI := Gi a b.
+Definition PR := @PR@.
 Definition chkz := @chk_show ZO (ord_show ZO) PR.
 Definition chkq := @chk_show QO (ord_show QO) PR.
-Definition chkg := @chk_show GI gauss_show PR.
+Definition chkg := @chk_show gi_comRingType gauss_show PR.
 Definition QParr (ns sh : seq nat) (rs : seq (seq nat)) (cs : seq (seq rat)) : parr QO := @Parr QO ns sh rs cs.
-Definition GParr (ns sh : seq nat) (rs : seq (seq nat)) (cs : seq (seq GI)) : parr GI := @Parr GI ns sh rs cs.
+Definition GParr (ns sh : seq nat) (rs : seq (seq nat)) (cs : seq (seq GI)) : parr gi_comRingType := @Parr gi_comRingType ns sh rs cs.
 """
 TARGETS = ["Gen/GenShow.vo", "Bridge/BridgeShow.vo", "Props/P_C16.vo"]
 KNOWN_COMPLEX = "str:complex-coefficient:negative-real-part:not-first-term"
@@ -213,7 +213,10 @@ def lex(text, pow_s, mul_s):
             inner = text[pos + 1:end]
             if not re.fullmatch(r"[+-]?[\d.eE+-]+[+-][\d.eE+-]*j", inner):
                 raise TextError(f"parenthesised text is not a complex literal: {inner!r}")
-            toks.append(("num", exact(complex(inner))))
+            try:
+                toks.append(("num", exact(complex(inner))))
+            except (OverflowError, ValueError):
+                raise TextError(f"complex literal {inner!r} is not finite") from None
             pos = end + 1
         elif ch.isdigit() or ch == ".":
             m = NUM_RE.match(text, pos)
@@ -224,12 +227,14 @@ def lex(text, pow_s, mul_s):
                 if not s.isdigit():
                     raise TextError(f"exponent is not a natural number: {s!r}")
                 toks.append(("nat", int(s)))
-            elif s.endswith("j"):
-                toks.append(("num", (Fraction(0), Fraction(float(s[:-1])))))
             elif s.isdigit():
                 toks.append(("num", (Fraction(int(s)), Fraction(0))))
             else:
-                toks.append(("num", (Fraction(float(s)), Fraction(0))))
+                try:
+                    v = Fraction(float(s.rstrip("j")))
+                except (OverflowError, ValueError):
+                    raise TextError(f"number literal {s!r} is not a finite double") from None
+                toks.append(("num", (Fraction(0), v) if s.endswith("j") else (v, Fraction(0))))
             pos = m.end()
         else:
             m = NAME_RE.match(text, pos)
@@ -332,6 +337,11 @@ def coq_kind(p, els):
     """Which Coq instance can carry the coefficients exactly (None: python-side checks only)."""
     vals = [v for el in els for _, v in el]
     if p.dtype.kind == "c":
+        import math
+        for c in p.coefficients:
+            for v in numpy.asarray(c).reshape(-1):
+                if v.real == 0 and math.copysign(1.0, v.real) < 0 and v.imag != 0:
+                    return None       # "(-0-2j)": a negative zero is not a Gaussian integer
         if all(v[0].denominator == 1 and v[1].denominator == 1 and abs(v[0]) < 10**6 and abs(v[1]) < 10**6 for v in vals):
             return "g"
         return None
@@ -409,6 +419,8 @@ def rand_spec(rng, stream):
     names = sorted(rng.sample(range(13), rng.choice([1, 1, 2, 2, 3, 4]) if not big else 3))
     if stream == "pool":
         names = list(gen.rand_names(rng))
+    if rng.random() < 0.25:
+        rng.shuffle(names)            # the monomial order is relative to the order of the name tuple
     D = len(names)
     nd = rng.choice([0, 0, 1, 1, 2, 3])
     shape = [rng.choice([1, 2, 2, 3]) for _ in range(nd)]
@@ -465,9 +477,29 @@ def defect_complex_class(p, el, g, r, inv):
         elided = v == (Fraction(-1), Fraction(0)) and any(row)
         if v[0] < 0 and not elided:
             return True
-        if v[0] == 0 and v[1] != 0 and str(complex(float(v[0]), float(v[1]))).startswith("(-"):
-            pass
     return False
+
+
+def explained_by_missing_plus(toks, names, el, want, g, r, inv):
+    """The malformed text becomes the right one (value, term order, coefficients) when a '+' is
+    written in front of every number that directly follows a complete factor: then, and only then,
+    the failure is the known defect and nothing else."""
+    fixed = []
+    for t in toks:
+        if t[0] == "num" and fixed and fixed[-1][0] in ("num", "name", "nat"):
+            fixed.append(("+",))
+        fixed.append(t)
+    try:
+        terms = parse(fixed)
+    except TextError:
+        return False
+    if denoted(terms) != want:
+        return False
+    expect = sorted((row for row, _ in el), key=lambda m: okey(g, r, m))
+    if inv:
+        expect.reverse()
+    printed = [tuple(m.get(nm, 0) for nm in names) for _, m in terms]
+    return printed == expect and [c for c, _ in terms] == [dict(el)[m] for m in expect]
 
 
 def check_poly(p, spec, settings, signs, viol, stats):
@@ -476,6 +508,12 @@ def check_poly(p, spec, settings, signs, viol, stats):
     els = stored_elements(p)
     names = list(p.names)
     want = [as_dict(names, el) for el in els]
+    if coq_kind(p, els) == "z" and all(re.fullmatch(r"q\d+", nm) for nm in names):
+        # the harness's shared canonical form (integral coefficients only) must agree with the local one
+        _, canon = core.canon_elements(p)
+        mine = [sorted((tuple(sorted((core.name_index(k), e) for k, e in m)), int(v[0])) for m, v in w.items()) for w in want]
+        if mine != canon:
+            viol.append(("harness", f"core.canon_elements and c16.stored_elements disagree on {spec}", {"poly": spec}))
     out = {}
     pow_s, mul_s = signs
     for (g, r, inv) in settings:
@@ -490,7 +528,11 @@ def check_poly(p, spec, settings, signs, viol, stats):
                 except TextError as exc:
                     viol.append(("structure", f"{kind} of the {p.dtype} array of shape {p.shape}: {exc}", rep))
                     texts[kind] = None
-            raw = str(p)
+                except Exception as exc:  # noqa: BLE001
+                    viol.append(("raise", f"{kind}() of a {p.dtype} array of shape {tuple(p.shape)} with stored terms "
+                                          f"{[fmt_terms(names, el) for el in els][:3]} raised {type(exc).__name__}: {exc}", rep))
+                    texts[kind] = None
+            raw = str(p) if texts["str"] is not None else ""
         if texts["str"] is None or texts["repr"] is None:
             return None
         if texts["str"] != texts["repr"]:
@@ -510,7 +552,9 @@ def check_poly(p, spec, settings, signs, viol, stats):
                 terms = parse(toks)
             except TextError as exc:
                 verdicts.append(False)
-                kind = KNOWN_COMPLEX if known_class else "malformed"
+                kind = "malformed"
+                if known_class and explained_by_missing_plus(toks, names, els[i], want[i], g, r, inv):
+                    kind = KNOWN_COMPLEX
                 viol.append((kind, f"str of element {i} is {text!r}, which is not an arithmetic expression ({exc}); "
                                    f"stored terms {fmt_terms(names, els[i])}", rep_i))
                 continue
@@ -573,7 +617,7 @@ def add_coq_case(cc, p, spec, res, meta):
                     if t[0] == "num" and kind in ("z", "q") and t[1][1] != 0:
                         return False
             tss = core.cseq(coq_toks(toks, lit, nameidx) for toks in toks_all)
-            obs.append(f"(O {core.cbool(g)} {core.cbool(r)} {core.cbool(inv)}, {tss}, {core.cseq(core.cbool(v) for v in verdicts)})")
+            obs.append(f"(dO {core.cbool(g)} {core.cbool(r)} {core.cbool(inv)}, {tss}, {core.cseq(core.cbool(v) for v in verdicts)})")
     except KeyError:
         return False          # a printed name that is not one of p.names: reported by the python side
     cc.add(f"chk{kind} {coq_parr(p, kind, lit)} {core.cseq(obs)}", dict(meta, kind=kind, poly=spec))
@@ -591,7 +635,8 @@ def sympy_roundtrip(p, spec, viol, stats):
     a = as_dict(list(p.names), stored_elements(p)[0])
     b = as_dict(list(back.names), stored_elements(back)[0]) if back.shape == () else None
     if a != b:
-        viol.append(("sympy-value", f"polynomial(to_sympy(p)) = {back!r} for p = {p!r}", {"poly": spec, "sympy": str(s)}))
+        viol.append(("sympy-value", f"polynomial(to_sympy(p)) has the terms {fmt_dict(b) if b is not None else back!r}, "
+                                    f"p has {fmt_dict(a)} (to_sympy(p) = {s})", {"poly": spec, "sympy": str(s)}))
 
 
 def run(report, tier, seed):
@@ -602,7 +647,18 @@ def run(report, tier, seed):
     except (show_tr.TranslatorError, SyntaxError, OSError) as exc:
         tr_ok = False
         report.notes.append(f"translator failed on array_repr.py: {exc}")
-    ok = tr_ok and core.prove(report, TARGETS)
+    if tr_ok:
+        ok = core.prove(report, TARGETS)
+        header = HEADER.replace("@GEN@", " GenShow").replace("@PR@", "gen_plus_rule")
+    else:
+        # DESIGN 3.5: an unrecognised (possibly harmless) rewrite of array_repr.py: fall back on the
+        # correspondence tie alone with a doubled budget; the "+" rule of the model is chosen by the
+        # witness of defect D16 on the implementation
+        ok = core.prove(report, ["Props/P_C16.vo"])
+        q0 = numpoly.variable()
+        rule = "PlusByText" if "+(" in str(q0 ** 2 + (-1 + 2j) * q0) else "PlusByValue"
+        header = HEADER.replace("@GEN@", "").replace("@PR@", rule)
+        report.notes.append(f"fallback: correspondence only, budget doubled, plus rule by witness = {rule}")
 
     try:
         import sympy  # noqa: F401
@@ -612,32 +668,50 @@ def run(report, tier, seed):
         report.notes.append("sympy is not importable in /venv: to_sympy round trip skipped")
 
     rng = core.rng_for(seed, "C16")
-    cc = core.CoqCases("C16", HEADER, shard=60 if tier == "quick" else 120)
+    cc = core.CoqCases("C16", header, shard=60 if tier == "quick" else 120)
     viol = []
     stats = {"elements": 0, "nontrivial": set(), "sympy": 0, "polys": 0, "by_stream": {}}
     quick = tier == "quick"
-    plan = [("int", 70, 900), ("pool", 30, 300), ("pm1", 40, 400), ("floatint", 30, 300), ("dyadic", 40, 500),
-            ("float", 30, 400), ("gauss", 50, 700), ("complex", 20, 300), ("bool", 20, 200), ("manyterms", 12, 120)]
+    plan = [("int", 70, 2200), ("pool", 30, 700), ("pm1", 40, 1000), ("floatint", 30, 700), ("dyadic", 40, 1200),
+            ("float", 30, 1000), ("gauss", 50, 1700), ("complex", 20, 700), ("bool", 20, 500), ("manyterms", 12, 300)]
+    # fixed corpus, checked first (minimal witnesses head the reports): the design-time witness of D16,
+    # +-1 coefficients, negative leading term, a constant, zero
+    def fixed(names, dtype, rows, cols, shape=()):
+        return {"names": names, "shape": list(shape), "dtype": dtype, "raw": True, "rows": rows, "cols": cols}
+    corpus = [
+        fixed(["q0"], "complex128", [[1], [2]], [[[-1.0, 2.0]], [[1.0, 0.0]]]),
+        fixed(["q0"], "complex128", [[0], [2]], [[[-1.0, 0.0]], [[1.0, 0.0]]]),
+        fixed(["q0"], "complex128", [[1], [2]], [[[0.0, -2.0]], [[0.0, 1.0]]]),
+        fixed(["q0", "q1"], "int64", [[0, 0], [1, 0], [1, 2]], [[-1], [1], [-1]]),
+        fixed(["q0", "q1"], "int64", [[0, 0], [1, 0], [0, 1]], [[1, 0], [-1, 0], [1, 0]], (2,)),
+        fixed(["q2", "q10"], "float64", [[0, 0], [2, 1]], [[-1.0], [-0.5]]),
+        fixed(["q0"], "bool", [[0], [1]], [[True], [True]]),
+        fixed(["q0"], "int64", [[0]], [[0]]),
+    ]
+    stream_of = [(sp, "corpus") for sp in corpus]
     for stream, nq, nt in plan:
-        n = nq if quick else nt
-        for k in range(n):
-            spec = rand_spec(rng, stream)
-            p = build(spec)
-            stats["polys"] += 1
-            stats["by_stream"][stream] = stats["by_stream"].get(stream, 0) + 1
-            # all eight term orders with the default signs; one order with alternative signs
-            res = check_poly(p, spec, SETTINGS, SIGNS[0], viol, stats)
-            if tr_ok:
-                add_coq_case(cc, p, spec, res, {"stream": stream})
-            alt = rng.choice(SIGNS[1:])
-            st = rng.choice(SETTINGS)
-            res2 = check_poly(p, spec, [st], alt, viol, stats)
-            if tr_ok and k % 4 == 0:
-                add_coq_case(cc, p, spec, res2, {"stream": stream, "signs": alt})
-            if have_sympy and not spec["shape"] and stream in ("int", "pool", "pm1", "floatint", "dyadic", "float", "manyterms"):
-                sympy_roundtrip(p, spec, viol, stats)
-            if k < 2:
-                report.sample({"stream": stream, "str": str(p)[:120], "repr": repr(p)[:120]}, cap=12)
+        n = (nq if quick else nt) * (1 if tr_ok else 2)
+        stream_of += [(None, stream)] * n
+    counters = {}
+    for pre, stream in stream_of:
+        k = counters.get(stream, 0)
+        counters[stream] = k + 1
+        spec = pre if pre is not None else rand_spec(rng, stream)
+        p = build(spec)
+        stats["polys"] += 1
+        stats["by_stream"][stream] = stats["by_stream"].get(stream, 0) + 1
+        # all eight term orders with the default signs; one order with alternative signs
+        res = check_poly(p, spec, SETTINGS, SIGNS[0], viol, stats)
+        add_coq_case(cc, p, spec, res, {"stream": stream})
+        alt = rng.choice(SIGNS[1:])
+        st = rng.choice(SETTINGS)
+        res2 = check_poly(p, spec, [st], alt, viol, stats)
+        if k % 4 == 0:
+            add_coq_case(cc, p, spec, res2, {"stream": stream, "signs": alt})
+        if have_sympy and not spec["shape"] and spec["dtype"] in ("int64", "float64"):
+            sympy_roundtrip(p, spec, viol, stats)
+        if k < 2 and res is not None:
+            report.sample({"stream": stream, "str": str(p)[:120], "repr": repr(p)[:120]}, cap=14)
     # names without a number suffix (force_number_suffix=False), python-side only
     for coefs in ([2, -1, 1], [-1, 0, 3], [1, 1, 1], [0, 0, 0]):
         with numpoly.global_options(force_number_suffix=False):
@@ -692,8 +766,7 @@ def run(report, tier, seed):
             report.violation(f"token stream / evaluator verdict of the Coq model and of the implementation differ on {str(meta)[:300]}",
                              {"kind": "correspondence", "term": term[:1500], **meta})
         if not ok and not report.violations:
-            what = "translator could not read array_repr.py" if not tr_ok else \
-                "proof obligation no longer checks: " + str(report.coverage.get("broken_obligation", {}).get("where"))
+            what = "proof obligation no longer checks: " + str(report.coverage.get("broken_obligation", {}).get("where"))
             report.violation(f"C16: {what}; no printed text disagrees with its polynomial on the sampled inputs",
                              {"kind": "broken-proof", **report.coverage.get("broken_obligation", {})}, found_input=False)
     report.coverage["trusted_base"] = [
